@@ -8,6 +8,10 @@
 //! sorts exactly the same sequence.
 //!
 //! Wire format: see coq/Run/RunQuorum.v.
+//!
+//! Modes: `exhaustive`, `random` write cases + the implementation's answers;
+//! `monitor --cases f1,f2,..` re-runs the REAL implementation on recorded case lines
+//! and checks it against the naive counting oracle (the property's specification).
 use crate::util::*;
 use raft::eraftpb::{ConfChangeSingle, ConfChangeType};
 use raft::{Changer, MajorityConfig, Progress, ProgressTracker};
@@ -113,65 +117,24 @@ fn header(op: u64, inc: &[u64], out: &[u64], c: &Case) -> Vec<u64> {
     input
 }
 
-thread_local! {
-    static ORACLE_VIOLATIONS: std::cell::Cell<u64> = std::cell::Cell::new(0);
+/// What the implementation answered for one case, plus the iteration orders used.
+pub struct Eval {
+    pub op: u64,
+    pub inc_order: Vec<u64>,
+    pub out_order: Vec<u64>,
+    /// the case as actually applied (op 2 drops acks of untracked ids)
+    pub case: Case,
+    pub out: Vec<u64>,
 }
 
-/// Naive counting oracle, independent of the Coq model: evaluates the SPECIFICATION
-/// proved in coq/M/QuorumProofs.v (committed_index_largest, gc_two_groups,
-/// gc_single_group, gc_zero_group) directly on the implementation's answers.
-fn oracle_majority(ids: &[u64], m: &PMap, plain: (u64, bool), gc: (u64, bool)) {
-    let bad = |what: &str| {
-        ORACLE_VIOLATIONS.with(|v| v.set(v.get() + 1));
-        eprintln!("ORACLE VIOLATION {}: ids={:?} plain={:?} gc={:?}", what, ids, plain, gc);
-    };
-    if ids.is_empty() {
-        if plain != (u64::MAX, true) || gc != (u64::MAX, true) {
-            bad("empty");
-        }
-        return;
-    }
-    let ig: Vec<(u64, u64)> = ids.iter().map(|id| m.get(id).map(|p| (p.matched, p.commit_group_id)).unwrap_or((0, 0))).collect();
-    let q = ids.len() / 2 + 1;
-    let cnt = |r: u64| ig.iter().filter(|x| x.0 >= r).count();
-    // largest acknowledged index with a majority behind it
-    let best = ig.iter().map(|x| x.0).filter(|&r| cnt(r) >= q).max().unwrap();
-    if plain != (best, false) {
-        bad("plain");
-    }
-    if plain.0 != u64::MAX && cnt(plain.0 + 1) >= q {
-        bad("plain-not-largest");
-    }
-    // group commit
-    let mut pair_best: Option<u64> = None;
-    for x in &ig {
-        for y in &ig {
-            if x.1 != 0 && y.1 != 0 && x.1 != y.1 {
-                let v = x.0.min(y.0);
-                pair_best = Some(pair_best.map_or(v, |b| b.max(v)));
-            }
-        }
-    }
-    let expect = match pair_best {
-        Some(g) => (g.min(best), true),
-        None => {
-            if ig.iter().all(|x| x.1 != 0) {
-                (best, false)
-            } else {
-                (ig.iter().map(|x| x.0).min().unwrap(), false)
-            }
-        }
-    };
-    if gc != expect {
-        bad("group-commit");
-    }
-    if gc.0 > plain.0 {
-        bad("gc-exceeds-plain");
+impl Eval {
+    pub fn input(&self) -> Vec<u64> {
+        header(self.op, &self.inc_order, &self.out_order, &self.case)
     }
 }
 
 /// op 0: MajorityConfig direct; only `c.inc` is used.
-pub fn run_majority(c: &Case, sh: &mut Shard) {
+pub fn eval_majority(c: &Case) -> Eval {
     let set: FxSet = c.inc.iter().cloned().collect();
     let cfg = MajorityConfig::new(set);
     let order = cfg.raw_slice();
@@ -179,25 +142,17 @@ pub fn run_majority(c: &Case, sh: &mut Shard) {
     let vm = vote_map(&c.votes);
     let (i0, f0) = cfg.committed_index(false, &m);
     let (i1, f1) = cfg.committed_index(true, &m);
-    oracle_majority(&order, &m, (i0, f0), (i1, f1));
     let vr = format!("{}", cfg.vote_result(|id| vm.get(&id).cloned()));
-    {
-        let yes = order.iter().filter(|id| vm.get(id) == Some(&true)).count();
-        let missing = order.iter().filter(|id| vm.get(id).is_none()).count();
-        let q = order.len() / 2 + 1;
-        let expect = if order.is_empty() || yes >= q { "VoteWon" } else if yes + missing < q { "VoteLost" } else { "VotePending" };
-        if vr != expect {
-            ORACLE_VIOLATIONS.with(|v| v.set(v.get() + 1));
-            eprintln!("ORACLE VIOLATION vote: ids={:?} votes={:?} got {}", order, c.votes, vr);
-        }
-    }
     let out = vec![raft::majority(order.len()) as u64, i0, f0 as u64, i1, f1 as u64, vote_code(&vr)];
-    sh.put(COMP, &header(0, &order, &[], c), &out);
+    let mut case = c.clone();
+    case.out.clear();
+    Eval { op: 0, inc_order: order, out_order: vec![], case, out }
 }
 
-/// op 1 (JointConfig direct, own acked map so acks may be missing) and
+/// op 1 (JointConfig direct, own acked map so acks may be missing) or
 /// op 2 (through the ProgressTracker; every tracked id has a Progress).
-pub fn run_joint(c: &Case, direct: bool, tracker: bool, sh: &mut Shard) {
+/// `c.inc` must be non-empty and ids non-zero.
+pub fn eval_joint(c: &Case, op: u64) -> Eval {
     let mut t = build_tracker(&c.inc, &c.out);
     let cs = t.conf().to_conf_state();
     let inc_order: Vec<u64> = cs.get_voters().to_vec();
@@ -216,32 +171,16 @@ pub fn run_joint(c: &Case, direct: bool, tracker: bool, sh: &mut Shard) {
         b.dedup();
         assert_eq!(a, b, "outgoing half differs from the requested one");
     }
-    if direct {
+    if op == 1 {
         let m = pmap(&c.acks);
         let vm = vote_map(&c.votes);
         let j = t.conf().voters();
         let (i0, f0) = j.committed_index(false, &m);
         let (i1, f1) = j.committed_index(true, &m);
-        {
-            // joint = min of the halves (each half checked against the oracle)
-            let hi = MajorityConfig::new(inc_order.iter().cloned().collect::<FxSet>());
-            let ho = MajorityConfig::new(out_order.iter().cloned().collect::<FxSet>());
-            for (gcf, got) in [(false, (i0, f0)), (true, (i1, f1))] {
-                let a = hi.committed_index(gcf, &m);
-                let b = ho.committed_index(gcf, &m);
-                if got != (a.0.min(b.0), a.1 && b.1) {
-                    ORACLE_VIOLATIONS.with(|v| v.set(v.get() + 1));
-                    eprintln!("ORACLE VIOLATION joint-min: inc={:?} out={:?}", inc_order, out_order);
-                }
-            }
-            oracle_majority(&inc_order, &m, hi.committed_index(false, &m), hi.committed_index(true, &m));
-            oracle_majority(&out_order, &m, ho.committed_index(false, &m), ho.committed_index(true, &m));
-        }
         let vr = format!("{}", j.vote_result(|id| vm.get(&id).cloned()));
         let out = vec![i0, f0 as u64, i1, f1 as u64, vote_code(&vr)];
-        sh.put(COMP, &header(1, &inc_order, &out_order, c), &out);
-    }
-    if tracker {
+        Eval { op, inc_order, out_order, case: c.clone(), out }
+    } else {
         // acks for untracked ids cannot be stored in the tracker: drop them from the case
         let mut c2 = c.clone();
         c2.acks.retain(|&(id, _, _)| t.get(id).is_some());
@@ -264,8 +203,259 @@ pub fn run_joint(c: &Case, direct: bool, tracker: bool, sh: &mut Shard) {
         let pq: FxSet = c2.set.iter().cloned().collect();
         let hq = t.has_quorum(&pq);
         let out = vec![i0, f0 as u64, i1, f1 as u64, g as u64, r as u64, vote_code(&vr), hq as u64];
-        sh.put(COMP, &header(2, &inc_order, &out_order, &c2), &out);
+        Eval { op, inc_order, out_order, case: c2, out }
     }
+}
+
+pub fn run_majority(c: &Case, sh: &mut Shard) {
+    let e = eval_majority(c);
+    sh.put(COMP, &e.input(), &e.out);
+}
+
+pub fn run_joint(c: &Case, direct: bool, tracker: bool, sh: &mut Shard) {
+    if direct {
+        let e = eval_joint(c, 1);
+        sh.put(COMP, &e.input(), &e.out);
+    }
+    if tracker {
+        let e = eval_joint(c, 2);
+        sh.put(COMP, &e.input(), &e.out);
+    }
+}
+
+// ---------------------------------------------------------------------------
+// The naive counting oracle = the property's specification (the statements proved
+// in coq/M/QuorumProofs.v), evaluated independently of the Coq model.
+
+/// (plain, group-commit) commit index of one majority set, by counting.
+///  plain : largest acknowledged index with a majority behind it (missing = (0,0)),
+///          empty set => (u64::MAX, true)
+///  gc    : two distinct non-zero groups occur => (min(plain, G), true), G = largest
+///          index replicated into two (non-zero) groups; all voters in one non-zero
+///          group => (plain, false); otherwise => (smallest acknowledged index, false)
+fn spec_commit(ids: &[u64], acks: &HashMap<u64, (u64, u64)>) -> ((u64, bool), (u64, bool)) {
+    if ids.is_empty() {
+        return ((u64::MAX, true), (u64::MAX, true));
+    }
+    let ig: Vec<(u64, u64)> = ids.iter().map(|id| acks.get(id).cloned().unwrap_or((0, 0))).collect();
+    let q = ids.len() / 2 + 1;
+    let cnt = |r: u64| ig.iter().filter(|x| x.0 >= r).count();
+    let best = ig.iter().map(|x| x.0).filter(|&r| cnt(r) >= q).max().unwrap();
+    let mut pair_best: Option<u64> = None;
+    for x in &ig {
+        for y in &ig {
+            if x.1 != 0 && y.1 != 0 && x.1 != y.1 {
+                let v = x.0.min(y.0);
+                pair_best = Some(pair_best.map_or(v, |b| b.max(v)));
+            }
+        }
+    }
+    let gc = match pair_best {
+        Some(g) => (g.min(best), true),
+        None => {
+            if ig.iter().all(|x| x.1 != 0) {
+                (best, false)
+            } else {
+                (ig.iter().map(|x| x.0).min().unwrap(), false)
+            }
+        }
+    };
+    ((best, false), gc)
+}
+
+/// 0 pending, 1 lost, 2 won for one majority set
+fn spec_vote(ids: &[u64], vm: &HashMap<u64, bool>) -> u64 {
+    if ids.is_empty() {
+        return 2;
+    }
+    let yes = ids.iter().filter(|id| vm.get(id) == Some(&true)).count();
+    let missing = ids.iter().filter(|id| vm.get(id).is_none()).count();
+    let q = ids.len() / 2 + 1;
+    if yes >= q {
+        2
+    } else if yes + missing < q {
+        1
+    } else {
+        0
+    }
+}
+
+fn spec_joint_vote(i: u64, o: u64) -> u64 {
+    if i == 2 && o == 2 {
+        2
+    } else if i == 1 || o == 1 {
+        1
+    } else {
+        0
+    }
+}
+
+const VNAME: [&str; 3] = ["VotePending", "VoteLost", "VoteWon"];
+
+/// Checks the implementation's answers `e.out` against the specification.
+fn check_eval(e: &Eval) -> Option<String> {
+    let c = &e.case;
+    let mut acks: HashMap<u64, (u64, u64)> = HashMap::new();
+    for &(id, i, g) in &c.acks {
+        acks.insert(id, (i, g));
+    }
+    let vm = vote_map(&c.votes);
+    let (inc, out) = (&e.inc_order, &e.out_order);
+    let o = &e.out;
+    let (base, what) = match e.op {
+        0 => (1, "MajorityConfig"),
+        1 => (0, "JointConfig"),
+        _ => (0, "ProgressTracker"),
+    };
+    if e.op == 0 && o[0] != (inc.len() / 2 + 1) as u64 {
+        return Some(format!("majority({}) = {} but n/2+1 = {}", inc.len(), o[0], inc.len() / 2 + 1));
+    }
+    let (pi, gi) = spec_commit(inc, &acks);
+    let (po, go) = spec_commit(out, &acks);
+    let plain = (pi.0.min(po.0), pi.1 && po.1);
+    let gc = (gi.0.min(go.0), gi.1 && go.1);
+    let got_plain = (o[base], o[base + 1] != 0);
+    let got_gc = (o[base + 2], o[base + 3] != 0);
+    if got_plain != plain {
+        return Some(format!(
+            "{}: committed_index(no group commit) = {:?} but the largest index acknowledged by a majority of each non-empty voter set is {:?} (incoming {:?} outgoing {:?} acks {:?})",
+            what, got_plain, plain, inc, out, c.acks
+        ));
+    }
+    if got_gc.0 > got_plain.0 {
+        return Some(format!("{}: group-commit index {} exceeds the plain quorum index {}", what, got_gc.0, got_plain.0));
+    }
+    if got_gc != gc {
+        return Some(format!(
+            "{}: committed_index(group commit) = {:?} but the specification (min of plain quorum index and largest index replicated into two groups) gives {:?} (incoming {:?} outgoing {:?} acks {:?})",
+            what, got_gc, gc, inc, out, c.acks
+        ));
+    }
+    let vpos = if e.op == 2 { 6 } else { base + 4 };
+    let want = spec_joint_vote(spec_vote(inc, &vm), spec_vote(out, &vm));
+    if o[vpos] != want {
+        return Some(format!(
+            "{}: vote result {} but counting gives {} (incoming {:?} outgoing {:?} votes {:?})",
+            what, VNAME[o[vpos] as usize % 3], VNAME[want as usize], inc, out, c.votes
+        ));
+    }
+    if e.op == 2 {
+        let member = |id: &u64| inc.contains(id) || out.contains(id);
+        let granted = vm.iter().filter(|(id, v)| member(id) && **v).count() as u64;
+        let rejected = vm.iter().filter(|(id, v)| member(id) && !**v).count() as u64;
+        if (o[4], o[5]) != (granted, rejected) {
+            return Some(format!("tally_votes counted granted={} rejected={} but the recorded votes of members are granted={} rejected={}", o[4], o[5], granted, rejected));
+        }
+        let half = |h: &Vec<u64>| h.is_empty() || h.iter().filter(|id| c.set.contains(id)).count() >= h.len() / 2 + 1;
+        let hq = half(inc) && half(out);
+        if (o[7] != 0) != hq {
+            return Some(format!("has_quorum({:?}) = {} but the set {} a majority of each non-empty half (incoming {:?} outgoing {:?})", c.set, o[7] != 0, if hq { "contains" } else { "does not contain" }, inc, out));
+        }
+    }
+    None
+}
+
+/// `quorum <numbers>` -> (op, Case); None if malformed.
+fn decode_case(line: &str) -> Option<(u64, Case)> {
+    let mut it = line.split_whitespace();
+    if it.next()? != COMP {
+        return None;
+    }
+    let v: Vec<u64> = it.map(|x| x.parse().ok()).collect::<Option<Vec<u64>>>()?;
+    let mut p = 0usize;
+    let mut next = |p: &mut usize| -> Option<u64> {
+        let x = *v.get(*p)?;
+        *p += 1;
+        Some(x)
+    };
+    let op = next(&mut p)?;
+    let mut c = Case::default();
+    let n = next(&mut p)?;
+    for _ in 0..n {
+        c.inc.push(next(&mut p)?);
+    }
+    let n = next(&mut p)?;
+    for _ in 0..n {
+        c.out.push(next(&mut p)?);
+    }
+    let n = next(&mut p)?;
+    for _ in 0..n {
+        let (a, b, g) = (next(&mut p)?, next(&mut p)?, next(&mut p)?);
+        c.acks.retain(|x| x.0 != a); // HashMap::insert: later wins
+        c.acks.push((a, b, g));
+    }
+    let n = next(&mut p)?;
+    for _ in 0..n {
+        let (a, b) = (next(&mut p)?, next(&mut p)?);
+        c.votes.push((a, b != 0));
+    }
+    let n = next(&mut p)?;
+    for _ in 0..n {
+        c.set.push(next(&mut p)?);
+    }
+    if op > 2 {
+        return None;
+    }
+    Some((op, c))
+}
+
+/// Rebuilds the real objects for the case, runs the real implementation, checks the
+/// specification.  `inject`: test-only fault injection (adds 1 to out[pos]) used to
+/// exercise the FAIL path of the monitor itself.
+fn monitor_case(op: u64, c: &Case, inject: Option<usize>) -> Option<(Eval, String)> {
+    let mut e = if op == 0 {
+        eval_majority(c)
+    } else {
+        if c.inc.is_empty() || c.inc.contains(&0) || c.out.contains(&0) {
+            return None; // not constructible through the public API
+        }
+        eval_joint(c, op)
+    };
+    if let Some(pos) = inject {
+        if pos < e.out.len() {
+            e.out[pos] = e.out[pos].wrapping_add(1);
+        }
+    }
+    check_eval(&e).map(|r| (e, r))
+}
+
+/// Greedy one-element-removal shrinking of a failing case.
+fn shrink(op: u64, c: &Case, inject: Option<usize>) -> Case {
+    let mut best = c.clone();
+    loop {
+        let mut cands: Vec<Case> = vec![];
+        for k in 0..best.acks.len() { let mut x = best.clone(); x.acks.remove(k); cands.push(x); }
+        for k in 0..best.votes.len() { let mut x = best.clone(); x.votes.remove(k); cands.push(x); }
+        for k in 0..best.set.len() { let mut x = best.clone(); x.set.remove(k); cands.push(x); }
+        for k in 0..best.out.len() { let mut x = best.clone(); x.out.remove(k); cands.push(x); }
+        for k in 0..best.inc.len() { let mut x = best.clone(); x.inc.remove(k); cands.push(x); }
+        match cands.into_iter().find(|x| monitor_case(op, x, inject).is_some()) {
+            Some(x) => best = x,
+            None => return best,
+        }
+    }
+}
+
+fn monitor(args: &[String]) {
+    let files = arg(args, "--cases", "");
+    let inject: Option<usize> = arg(args, "--inject", "").parse().ok();
+    let mut n = 0u64;
+    for f in files.split(',').filter(|x| !x.is_empty()) {
+        let text = std::fs::read_to_string(f).unwrap();
+        for line in text.lines() {
+            if let Some((op, c)) = decode_case(line) {
+                n += 1;
+                if monitor_case(op, &c, inject).is_some() {
+                    let small = shrink(op, &c, inject);
+                    let (e, reason) = monitor_case(op, &small, inject).unwrap();
+                    println!("FAIL {} {}", COMP, e.input().iter().map(|x| x.to_string()).collect::<Vec<_>>().join(" "));
+                    println!("REASON {}", reason);
+                    return;
+                }
+            }
+        }
+    }
+    println!("MONITOR-OK cases={}", n);
 }
 
 fn subsets(n: u64) -> Vec<Vec<u64>> {
@@ -468,6 +658,9 @@ fn random_case(rng: &mut Rng, o: &mut Out) {
 
 pub fn main(args: &[String]) {
     let mode = arg(args, "--mode", "exhaustive");
+    if mode == "monitor" {
+        return monitor(args);
+    }
     let dir = arg(args, "--out", "/verif/build/run");
     let nsh: usize = arg(args, "--shards", "16").parse().unwrap();
     let seed: u64 = arg(args, "--seed", "1").parse().unwrap();
@@ -493,9 +686,5 @@ pub fn main(args: &[String]) {
             total += s.finish();
         }
     }
-    let viol = ORACLE_VIOLATIONS.with(|v| v.get());
-    println!("cases={} oracle_violations={}", total, viol);
-    if viol > 0 {
-        std::process::exit(1);
-    }
+    println!("cases={}", total);
 }
